@@ -336,6 +336,9 @@ fn alphabet() -> Vec<Ev> {
         Ev::Skip(0),
         Ev::Skip(1),
         Ev::Skip(5),
+        // the largest skips: straight to the last tick number, and past it
+        Ev::Skip(i32::MAX - 1),
+        Ev::Skip(i32::MAX),
         Ev::InNew(0, 3),
         Ev::InDiff(0, 9),
         Ev::Msg(1, 5),
@@ -403,7 +406,31 @@ fn main() {
             }
             evs.push(Ev::Finish);
             if reference(&evs).is_none() {
-                return lc; // not a valid server history
+                // not a valid server history (a tick number out of range, a player added twice,
+                // ...): still a byte stream - items or an error, no panic, and the same outcome
+                // whether it arrives whole or byte by byte
+                let data = encode(&evs);
+                let case = |extra: vp_core::serde_json::Value| json!({"history": format!("{:?}", evs), "stream_hex": vp_core::hex(&data), "extra": extra});
+                lc.eval();
+                let whole = match vp_core::catch(|| read_all(&data, &[])) {
+                    Ok(r) => r,
+                    Err(p) => {
+                        run.violation(&format!("c17:invalid-history:{}", vp_core::panic_sig(&p)), &p, case(json!(null)));
+                        return lc;
+                    }
+                };
+                let pieces: Vec<usize> = std::iter::once(hlen).chain(std::iter::repeat(1).take(data.len() - hlen)).collect();
+                match vp_core::catch(|| read_all(&data, &pieces)) {
+                    Ok(r) if r.is_ok() == whole.is_ok() && (r.is_err() || r == whole) => {}
+                    Ok(r) => {
+                        run.violation("c17:invalid-history:fragmentation-changes-outcome", &format!("whole: {:?}, byte by byte: {:?}", whole.as_ref().map(|i| i.len()), r.as_ref().map(|i| i.len())), case(json!(null)));
+                    }
+                    Err(p) => {
+                        run.violation(&format!("c17:invalid-history:{}", vp_core::panic_sig(&p)), &p, case(json!({"pieces": "byte by byte"})));
+                    }
+                }
+                lc.class(&format!("invalid-history:{}", if whole.is_ok() { "items" } else { "error" }), || json!(format!("{:?}", evs)));
+                return lc;
             }
             let data = encode(&evs);
             let case = |extra: vp_core::serde_json::Value| json!({"history": format!("{:?}", evs), "stream_hex": vp_core::hex(&data), "extra": extra});
@@ -604,7 +631,7 @@ fn main() {
     }
     run.assume("streams are produced by an independent encoder from server histories that are valid per the format (players exist before they move, inputs are new before they are diffed)");
     run.finish(
-        &format!("all valid server histories of length <= {} over an 18-message alphabet (players 0..2 new/diff/old, tick skips 0/1/5, input new/diff, message, two extension messages, join, drop): decoded under every 1- and 2-piece fragmentation of the message part (quick: strided 3-piece; thorough: every 3-piece for length <= 4), byte-by-byte, with a zero-length read at every position, header cut at every byte; oracle: identical items, nesting, strictly increasing ticks equal to the documentation's pseudo-code, positions/inputs equal running sums; every truncation and 7-value byte substitution: value or error, fragmentation-independent; two long streams (> 3 x 8192 bytes) cut within +-16 bytes of every multiple of 8192 and in fixed chunks; 49 long streams with a player joining and leaving all the time, shifted byte by byte against the reader's 8 KiB window", depth),
+        &format!("all valid server histories of length <= {} over a 20-message alphabet (players 0..2 new/diff/old, tick skips 0/1/5/i32::MAX-1/i32::MAX, input new/diff, message, two extension messages, join, drop): decoded under every 1- and 2-piece fragmentation of the message part (quick: strided 3-piece; thorough: every 3-piece for length <= 4), byte-by-byte, with a zero-length read at every position, header cut at every byte; oracle: identical items, nesting, strictly increasing ticks equal to the documentation's pseudo-code, positions/inputs equal running sums; every truncation and 7-value byte substitution: value or error, fragmentation-independent; the histories that are not valid (tick number out of range, player added twice, ...) are fed as well: items or an error, no panic, same outcome whole and byte by byte; two long streams (> 3 x 8192 bytes) cut within +-16 bytes of every multiple of 8192 and in fixed chunks; 49 long streams with a player joining and leaving all the time, shifted byte by byte against the reader's 8 KiB window", depth),
         true,
     );
 }
